@@ -445,7 +445,7 @@ package memberlist
 //@   requires ok: mlNet(m) && from != nil
 //@   at call (*Memberlist).nextSeqNo: set $relaySeq := res
 //@   at call decode: set $reqPort := ind.Port
-//@   at call joinHostPort #2: set $relayPort := arg1
+//@   at call joinHostPort: set $relayPort := arg1      // the last address built before the ping is sent is the target's
 //@   at call (*Memberlist).setAckHandler: assert relay-registers-fresh-seq [C19]: seqNo == $relaySeq
 //@   at call (*Memberlist).encodeAndSendMsg: assert relay-pings-requested-port [C19]: m.config.ProtocolVersion >= 2 && $reqPort != 0 ==> $relayPort == $reqPort     // from protocol version 2 on the request carries the target's port
 //@   at call (*Memberlist).setAckHandler: assert relay-expires-with-probe [C19]: timeout == m.config.ProbeTimeout     // the pending record is dropped when the nack is due
